@@ -187,7 +187,39 @@ func VerifC24CrossCopy() {
 			opts.StorageClass = &rclass
 		}
 	}
+	// copy-source preconditions: the same-storage rules (S3)
+	lm := srcObj.LastModified
+	wantFail := false
+	if opts != nil {
+		offs := []time.Duration{-time.Second, 0, time.Second}
+		switch verifPick("condition", 0, 4) {
+		case 1: // If-Modified-Since: fails unless modified strictly after
+			t := lm.Add(offs[verifPick("ims", 0, 2)])
+			opts.CopySourceConditions.IfModifiedSince = &t
+			wantFail = !lm.After(t)
+		case 2: // If-Unmodified-Since: fails if modified after
+			t := lm.Add(offs[verifPick("ius", 0, 2)])
+			opts.CopySourceConditions.IfUnmodifiedSince = &t
+			wantFail = lm.After(t)
+		case 3: // If-Match (a passing If-Match overrides If-Unmodified-Since)
+			e := []string{"etag-src", "other", "*"}[verifPick("if-match", 0, 2)]
+			opts.CopySourceConditions.IfMatch = &e
+			t := lm.Add(-time.Second)
+			opts.CopySourceConditions.IfUnmodifiedSince = &t
+			wantFail = e == "other"
+		case 4: // If-None-Match
+			e := []string{"etag-src", "other", "*"}[verifPick("if-none-match", 0, 2)]
+			opts.CopySourceConditions.IfNoneMatch = &e
+			wantFail = e != "other"
+		}
+	}
 	_, err := r.mw.CopyObject(verifBg, storage.MustNewBucketName("bucket-a"), storage.MustNewObjectKey("k"), storage.MustNewBucketName("bucket-b"), storage.MustNewObjectKey("k2"), opts)
+	if wantFail {
+		verifCover("precondition-failed")
+		verifAssert(err == storage.ErrPreconditionFailed, "cross-storage copy: a failing copy-source precondition did not stop the copy")
+		verifAssert(len(r.b.calls) == 0, "cross-storage copy wrote the destination although a copy-source precondition failed")
+		return
+	}
 	verifAssert(err == nil, "cross-storage CopyObject failed")
 	verifAssert(len(gotBody) == 1 && gotBody[0] == 'x', "cross-storage copy stored a different body")
 
